@@ -134,6 +134,22 @@ def find_scans(fn):
                 for at, val in fa.items():
                     if at[0] == "eq" and b in at[1:] and val:
                         sc.ties.append(other)
+            # accumulating arms: any other If in the loop that grows a structure the reset arm (re)builds must be a tie arm
+            built = [unparse(t) for s in arm.body if isinstance(s, ast.Assign) for t in s.targets if unparse(t) != b]
+            sc.accum = []
+            for c in ast.walk(loop):
+                if isinstance(c, ast.Call) and isinstance(c.func, ast.Attribute) and c.func.attr in ("append", "insert", "extend", "add"):
+                    recv = unparse(c.func.value)
+                    if not any(recv == t or recv.startswith(t + "[") or recv.startswith(t + ".") for t in built):
+                        continue
+                    # the innermost If whose BODY holds the call (an elif is the orelse of its predecessor)
+                    child, p = c, getattr(c, "_parent", None)
+                    while p is not None and p is not loop and not (isinstance(p, ast.If) and child in p.body):
+                        child, p = p, getattr(p, "_parent", None)
+                    if isinstance(p, ast.If) and p is not arm and p not in sc.accum:
+                        sc.accum.append(p)
+                    elif p is loop:
+                        sc.accum.append(loop)       # unconditional accumulation
             scans.append(sc)
     return scans
 
@@ -152,6 +168,9 @@ def judge(sc):
     # initialisation precedes the loop
     if not (sc.init.lineno < sc.loop.lineno):
         out.append(("best-not-initialised", "`%s` must start at +inf before the scan" % sc.best, sc.loop))
+    for t in getattr(sc, "accum", []):
+        if t not in sc.ties and not any(t is x for st_ in sc.arm.body for x in ast.walk(st_)):
+            out.append(("tie-arm-key", "this arm adds a candidate to what the reset arm built, so it must be under `%s == %s`" % (sc.key, sc.best), t))
     for t in sc.ties:
         g = guards.norm(t.test, unparse)
         fa = {}
